@@ -1,0 +1,18 @@
+//go:build verif
+
+package clock
+
+import "time"
+
+// PendingTimers returns the instants at which the currently armed timers of the
+// mock clock fire. It lets the verification harness wait until a background
+// goroutine has re-armed its timer before the clock is moved again.
+func (m *MockClock) PendingTimers() []time.Time {
+	m.mu.RLock()
+	defer m.mu.RUnlock()
+	res := make([]time.Time, 0, len(m.timers))
+	for _, t := range m.timers {
+		res = append(res, t.Next())
+	}
+	return res
+}
